@@ -133,6 +133,7 @@ def deprecated_list(path: Path, fix: bool, cleanup: bool):
 
     if cleanup and not fix:
         logging.warning("Ignoring --cleanup since we are not fixing old IDs")
+        cleanup = False
     fix_deprecated(path, fix, cleanup)
 
 
